@@ -228,6 +228,7 @@ type runner struct {
 
 	mu  sync.Mutex
 	log []string
+	at  []time.Time // when each event was logged (never emitted; used to see whether the timing was forced)
 
 	ctx       context.Context
 	cancelFn  context.CancelFunc
@@ -262,7 +263,96 @@ type runner struct {
 func (r *runner) ev(s string) {
 	r.mu.Lock()
 	r.log = append(r.log, s)
+	r.at = append(r.at, time.Now())
 	r.mu.Unlock()
+}
+
+// timingForced decides whether the environment did its part well inside the time budgets of the
+// application (shutdown timeout 1 s for the hooks and the drain, 1 s for the clean-up after a failed
+// start, 1 s for the final steps after a used-up budget). On a loaded machine a goroutine of the
+// harness can be late; the case then says nothing about the property and is discarded (and counted).
+//
+// Between the signal and the return of Start there is at most one wait for the deadline, and only in
+// scenarios that contain one: inside the first OnShutdown hook that holds on (it ends with that hook's
+// exit event), or in the drain when a request is never released (it ends with the first flush / OnStop /
+// return event). Everything before the wait and everything after it must have taken less than half a
+// budget, and no request may have been released by the drainer after the wait.
+func (r *runner) timingForced() bool {
+	const half = 500 * time.Millisecond
+	r.mu.Lock()
+	defer r.mu.Unlock()
+	ir, ic := -1, -1
+	for i, e := range r.log {
+		if e == "r" && ir < 0 {
+			ir = i
+		}
+		if e == "c" && ic < 0 {
+			ic = i
+		}
+	}
+	if ir < 0 {
+		return true
+	}
+	if ic < 0 || ic > ir {
+		return ir == 0 || r.at[ir].Sub(r.at[ir-1]) < half
+	}
+	i0 := ic
+	for j := ic + 1; j < ir; j++ {
+		if strings.HasPrefix(r.log[j], "s ") || strings.HasPrefix(r.log[j], "S ") || strings.HasPrefix(r.log[j], "y ") {
+			i0 = j
+		}
+	}
+	// where does the wait end?
+	x := -1
+	bstar := -1
+	for i, b := range r.sc.Shuts {
+		if b == bBlock {
+			bstar = i
+		}
+	}
+	stuck := false
+	for _, q := range r.sc.Reqs {
+		if q.Kind == "N" || (q.Kind == "H" && q.J >= len(r.sc.Shuts)) {
+			stuck = true
+		}
+	}
+	if bstar >= 0 {
+		want := fmt.Sprintf("H %d", bstar)
+		for j := i0 + 1; j <= ir; j++ {
+			if r.log[j] == want {
+				x = j
+				break
+			}
+		}
+	} else {
+		for j := i0 + 1; j <= ir; j++ {
+			if e := r.log[j]; e == "f" || e == "r" || strings.HasPrefix(e, "p ") {
+				x = j
+				break
+			}
+		}
+		// a request released by the drainer after the drain has ended: the drainer was late
+		for j := x + 1; x >= 0 && j < len(r.log); j++ {
+			if strings.HasPrefix(r.log[j], "Q ") {
+				return false
+			}
+		}
+		if !stuck {
+			x = -1 // no wait in this scenario
+		}
+	}
+	var before, after time.Duration
+	for j := i0; j < ir; j++ {
+		g := r.at[j+1].Sub(r.at[j])
+		switch {
+		case j+1 == x:
+		case x < 0 || j+1 < x:
+			before += g
+		default:
+			after += g
+		}
+	}
+	return before < half && after < half
 }
 
 func b2s(b bool) string {
@@ -285,20 +375,21 @@ func (r *runner) probeApp() bool {
 	return resp.StatusCode == 200 && resp.Header.Get("X-Verif-Case") == r.id
 }
 
-func tcpOpen(port int) bool {
-	c, err := net.DialTimeout("tcp", fmt.Sprintf("127.0.0.1:%d", port), 2*time.Second)
-	if err != nil {
-		return false
-	}
-	c.Close()
-	return true
-}
-
+// probeMetrics: does the metrics server answer on its port? (An HTTP round trip, not a bare connect:
+// metrics.Recorder test-binds the port before its server goroutine binds it for real.)
 func (r *runner) probeMetrics() bool {
 	if !r.sc.Metrics {
 		return false
 	}
-	return tcpOpen(r.metPort)
+	req, _ := http.NewRequest("GET", fmt.Sprintf("http://127.0.0.1:%d/metrics", r.metPort), nil)
+	req.Close = true
+	resp, err := r.client.Do(req)
+	if err != nil {
+		return false
+	}
+	defer resp.Body.Close()
+	io.Copy(io.Discard, resp.Body)
+	return resp.StatusCode == 200
 }
 
 // span records one finished span, so that there is always something for the tracer to flush.
@@ -639,7 +730,7 @@ func (r *runner) build() error {
 			r.span("boot")
 			dl := time.Now().Add(5 * time.Second)
 			for sc.Metrics && time.Now().Before(dl) {
-				if tcpOpen(r.metPort) {
+				if r.probeMetrics() {
 					return nil
 				}
 				time.Sleep(200 * time.Microsecond)
@@ -856,7 +947,13 @@ func (r *runner) run() obsT {
 		if !q.released.Load() {
 			o.Reqs = append(o.Reqs, 2)
 			r.releaseReq(k, false)
-		} else if q.complete {
+			continue
+		}
+		// released before Start returned: the verdict is the client's, once it has finished reading
+		if !waitCh(q.done, 10*time.Second) {
+			o.Notes = append(o.Notes, fmt.Sprintf("client %d still reading", k))
+		}
+		if q.complete {
 			o.Reqs = append(o.Reqs, 1)
 		} else {
 			o.Reqs = append(o.Reqs, 0)
@@ -872,6 +969,9 @@ func (r *runner) run() obsT {
 	o.Fin = r.fin
 	o.Rounds = append([]int(nil), r.roundRes...)
 	o.Err = r.errText
+	if o.Discard == "" && !r.timingForced() {
+		o.Discard = "timing could not be forced (environment late against a 1 s budget)"
+	}
 	if o.Discard == "" && r.res == 2 && sc.Listen == lOK {
 		o.Discard = "unexpected listen failure: " + r.errText // somebody else took the port
 	}
@@ -1154,6 +1254,7 @@ func main() {
 		}()
 	}
 	wg.Wait()
+	emitted := 0
 	for _, j := range jobs {
 		if j.o.Discard != "" {
 			fmt.Fprintf(w, "# discarded %s: %s\n", j.id, j.o.Discard)
@@ -1163,8 +1264,15 @@ func main() {
 			continue
 		}
 		fmt.Fprintln(w, emit(j.id, j.sc, j.o, st))
+		emitted++
 	}
 	if st != nil {
 		st.Emit(w)
+	}
+	// discards are for the odd late goroutine; if they become the rule the run proves nothing
+	if nd := len(jobs) - emitted; len(jobs) >= 20 && nd*4 > len(jobs) {
+		w.Flush()
+		fmt.Fprintf(os.Stderr, "%d of %d cases discarded: timing cannot be forced on this machine/tree\n", nd, len(jobs))
+		os.Exit(3)
 	}
 }
